@@ -7,6 +7,7 @@ import FFVerif.Props.C01
 import FFVerif.Props.C02
 import FFVerif.Props.C05
 import FFVerif.Props.C06
+import FFVerif.Props.C07
 import FFVerif.Props.C19
 open FF FF.Proto
 
@@ -121,6 +122,18 @@ def handle (toks : List String) : Option String :=
     let t ← parseTable t
     let rf ← parseTable rf
     some (showFail (C06.failingRy h cs t rf))
+  | ["matrix", name, r, h] => do
+    let f ← counterByName name
+    let r ← parseInt? r
+    let h ← parseList h
+    let (M, keys) := toMatrix (f (digitize r h))
+    some (showMatrix M ++ " " ++ showList keys)
+  | ["c07", cs, t, M, keys] => do
+    let cs ← parseCycs cs
+    let t ← parseTable t
+    let M ← parseMatrix M
+    let keys ← parseList keys
+    some (showFail (C07.failing cs t M keys))
   | ["c01mat", h, m] => do
     let h ← parseList h
     let m ← parseTriples m
